@@ -95,6 +95,9 @@ static void* sim_alloc(size_t size, size_t align, bool nothrow)
         if (g_op.ceiling && g_op.cost() > g_op.ceiling && g_on_ceiling) {
             g_on_ceiling();
         }
+        // backstop for calls without a ceiling: no input of the simulator justifies 2 GiB of allocations in one call
+        if (g_op.alloc_bytes > (2ull << 30) && g_on_ceiling)
+            g_on_ceiling();
     }
     if (size == 0)
         size = 1;
